@@ -318,6 +318,26 @@ def decide(pid, pc, tier, seed, work, t0, finder_driver):
             r2 = run_unit(r['unit'], work, rlimit * 4, ['--smt-option', 'smt.random_seed=7'])
             if not r2['undecided']:
                 results[i] = r2
+    # a failed obligation is re-tried under two other solver configurations (random seeds, 2x resource limit): any
+    # successful proof is a proof, so an obligation counts as failed only when it fails under every configuration.
+    # This keeps proofs that depend on the solver's quantifier-instantiation luck from turning into alarms.
+    retried = {}
+    for i, r in enumerate(results):
+        if r['failures'] and r.get('status') == 'ok':
+            still = {f['label'] for f in r['failures']}
+            first = len(still)
+            for seed_ in (7, 23):
+                if not still:
+                    break
+                r2 = run_unit(r['unit'], work, rlimit * 2, ['--smt-option', 'smt.random_seed=%d' % seed_, '--smt-option', 'sat.random_seed=%d' % seed_])
+                if r2.get('status') != 'ok' or r2['undecided']:
+                    continue
+                still &= {f['label'] for f in r2['failures']}
+                r['smt_ms'] = r.get('smt_ms', 0) + r2.get('smt_ms', 0)
+            retried[r['unit']] = dict(failed_first=first, failed_under_every_configuration=len(still))
+            if len(still) < first:
+                print('NOTE: unit %s: %d of %d failed obligation(s) were discharged under another solver configuration' % (r['unit'], first - len(still), first))
+            r['failures'] = [f for f in r['failures'] if f['label'] in still]
     undecided = []
     if not canary_ok:
         undecided.append('canary failed: trusted prelude may be inconsistent or verus unusable: %s' % canary_info)
@@ -480,6 +500,8 @@ def decide(pid, pc, tier, seed, work, t0, finder_driver):
     ev = evidence(pid, pc, tier, seed, t0, mine, discharged, functions, results, smt_ms, verified, failures, undecided, known_hit, new_viol, funcs_time, sha)
     if vac is not None:
         ev['coverage']['vacuity_probe'] = vac
+    if retried:
+        ev['coverage']['solver_retries'] = retried
     if extra_info is not None:
         ev['coverage']['script_scan'] = dict(files=extra_info['files'], assignments=extra_info['assignments'], violations=len(extra_info['violations']))
     if sampled is not None:
